@@ -1176,3 +1176,37 @@ Proof.
   specialize (H I0). unfold up_inv in H.
   cbn [upstep]. destruct (eos _) eqn:E; [rewrite (H eq_refl) in Ht; discriminate|reflexivity].
 Qed.
+
+(* ------------------------------------------------------------------ *)
+(** * Shutdown polls serve what they arm *)
+
+Lemma sdstep_serves s e :
+  sd_queued s = 0 -> sd_armed s = false -> 
+  sd_queued (sdstep true s e) = 0 /\ sd_armed (sdstep true s e) = false.
+Proof.
+  intros Q A. destruct e as [n| |]; cbn [sdstep sd_queued sd_armed sd_socket].
+  - split; assumption.
+  - destruct (sd_socket s =? 0); cbn [sd_queued sd_armed]; split; auto.
+  - destruct (sd_socket s =? 0); cbn [sd_queued sd_armed]; split; auto.
+Qed.
+
+Lemma sdrun_serves evs : forall s,
+  sd_queued s = 0 -> sd_armed s = false ->
+  sd_queued (fold_left (sdstep true) evs s) = 0 /\ sd_armed (fold_left (sdstep true) evs s) = false.
+Proof.
+  induction evs as [|e r IH]; intros s Q A; cbn [fold_left].
+  - split; assumption.
+  - destruct (sdstep_serves s e Q A) as [Q1 A1]. apply IH; assumption.
+Qed.
+
+(** without the repair, bytes taken by a poll stay queued whatever follows, as long as the client sends nothing more *)
+Lemma sd_stuck evs : forall s,
+  sd_socket s = 0 -> sd_queued s <> 0 ->
+  (forall e, In e evs -> e = SdPoll \/ e = SdEpoll) ->
+  fold_left (sdstep false) evs s = s.
+Proof.
+  induction evs as [|e r IH]; intros s S Q H; cbn [fold_left]; [reflexivity|].
+  assert (E : sdstep false s e = s).
+  { destruct (H e (or_introl eq_refl)) as [->| ->]; cbn [sdstep]; rewrite S; reflexivity. }
+  rewrite E. apply IH; try assumption. intros e' I. apply H. right. exact I.
+Qed.
